@@ -292,15 +292,19 @@ def SItem.eraseSq : SItem → Option AItem
 def SBlock.eraseSq (b : SBlock) : List AItem :=
   b.items.filterMap (fun p => p.1.eraseSq) ++ (b.last.map SDecl.eraseSq).toList
 
+def SPageItem.eraseItem : SPageItem → Option AItem
+  | .item i => i.erase
+  | .margin .. => none
+
+def SPageItem.eraseMargin : SPageItem → Option AMargin
+  | .item _ => none
+  | .margin n _ _ blk => some ⟨0x40 :: n, blk.eraseSq⟩
+
 def SPageBlock.eraseItems (b : SPageBlock) : List AItem :=
-  b.items.filterMap (fun p => match p.1 with
-    | .item i => i.erase
-    | .margin .. => none) ++ (b.last.map SDecl.erase).toList
+  b.items.filterMap (fun p => p.1.eraseItem) ++ (b.last.map SDecl.erase).toList
 
 def SPageBlock.eraseMargins (b : SPageBlock) : List AMargin :=
-  b.items.filterMap (fun p => match p.1 with
-    | .item _ => none
-    | .margin n _ _ blk => some ⟨0x40 :: n, blk.eraseSq⟩)
+  b.items.filterMap (fun p => p.1.eraseMargin)
 
 mutual
 def SRule.erase : SRule → ARule
